@@ -550,6 +550,37 @@ def c14_objectives(tier, seed):
                 "(negated), number of selected variables (negated)); non-trivial = distinct (rule kinds, number of prio levels)")
     rng = random.Random(seed + 71)
     n = 25 if tier == "quick" else 200
+    # independent of default_prios: a default is chosen when nothing overrides it, a prioritised item when asked for,
+    # and nothing more than necessary is selected
+    for kind in ("Xor", "Any"):
+        for xs in (["a", "b", "c"], ["p", "q"], ["a", "b", "c", "d"]):
+            for d in xs:
+                rule = (cc.Xor if kind == "Xor" else cc.Any)(*xs, default=[d], variable="R")
+                cfg0 = cc.StingyConfigurator(rule, pg.Imply("z", pg.Any(*xs[:2], variable="Q"), variable="I"), id="d-%s-%s-%s" % (kind, d, len(xs)))
+                sol = list(cfg0.select({}, solver=dummy_solver, only_leafs=True))[0]
+                chosen = sorted(k_ for k_, v in sol.items() if int(v) == 1)
+                r["evaluations"] += 1
+                r["_seen"].add((kind, "default-chosen"))
+                if chosen != [d]:
+                    _viol(r, "c14.default-not-chosen", {"rule": rule.to_json(), "prio": {}}, chosen=chosen, default=d)
+                other = [x for x in xs if x != d][0]
+                sol = list(cfg0.select({other: 1}, solver=dummy_solver, only_leafs=True))[0]
+                chosen = sorted(k_ for k_, v in sol.items() if int(v) == 1)
+                if other not in chosen or (kind == "Xor" and chosen != [other]):
+                    _viol(r, "c14.prioritised-item-not-selected", {"rule": rule.to_json(), "prio": {other: 1}}, chosen=chosen)
+    # the non-default branch costs more than any number of plain selections: the default wins even when it drags
+    # several other items in
+    for m in (2, 3, 5):
+        extra = ["p%d" % i for i in range(m)]
+        for kind in ("Xor", "Any"):
+            rule = (cc.Xor if kind == "Xor" else cc.Any)("a", "b", default=["b"], variable="R")
+            cfg0 = cc.StingyConfigurator(rule, pg.Imply("b", pg.All(*extra, variable="ALLP"), variable="I"), id="dd-%s-%d" % (kind, m))
+            sol = list(cfg0.select({}, solver=dummy_solver, only_leafs=True))[0]
+            chosen = sorted(k_ for k_, v in sol.items() if int(v) == 1)
+            r["evaluations"] += 1
+            r["_seen"].add((kind, "default-over-count", m))
+            if "b" not in chosen or "a" in chosen:
+                _viol(r, "c14.default-not-chosen", {"rule": rule.to_json(), "drags_in": extra, "prio": {}}, chosen=chosen, default="b")
     for k in range(n):
         items = list("abcdef")
         rules, kinds = [], []
